@@ -188,6 +188,13 @@ def families(tier, seed):
     return fams
 
 
+def _twin_neg_plane():
+    Plane.__neg__ = lambda self: Plane(self.p, self.n)
+
+
+TWINS = {'-plane keeps the normal': (r'^forms/xyz/concrete-normal$', _twin_neg_plane)}
+
+
 META = dict(
     title='Plane and Line forms round-trip',
     level_text=('Bounded symbolic model checking of the real Plane/Line constructors and form accessors: Plane(a,b,c,d) with all four coefficients as '
